@@ -75,7 +75,7 @@ def run_case(case):
         if tk is not None and tk != [0, 0, m]:
             mon.append(dict(prop='C17', rule='leftover-markers', detail=f'round {k} over: token queues (spare, applied, used) = {tk}'))
         ar = rec.get('after_renew')
-        if ar is not None and ar != dict(qsize=0, tokens=[m, 0, 0]):
+        if ar is not None and (ar['qsize'] != 0 or ar['tokens'] not in (None, [m, 0, 0])):
             mon.append(dict(prop='C17', rule='renew-not-clean', detail=f'after renew of round {k}: {ar}'))
         if rec.get('renew_error'):
             mon.append(dict(prop='C17', rule='unexpected-exception', detail=f'renew after round {k}: {rec["renew_error"]}'))
@@ -159,7 +159,7 @@ def _child(case):
         if errs:
             rec['errors'] = errs
             break
-        rec['tokens'] = [iq._spare_lids.qsize(), iq._applied_lids.qsize(), iq._used_lids.qsize()]
+        rec['tokens'] = _tokens(iq)
         last = r == case['rounds'] - 1
         if not last or case['final_renew']:
             rec['qsize_before_renew'] = data.qsize()
@@ -173,11 +173,18 @@ def _child(case):
                 rec['renew_error'] = repr(e)
                 break
             time.sleep(0.05)
-            rec['after_renew'] = dict(qsize=data.qsize(),
-                                      tokens=[iq._spare_lids.qsize(), iq._applied_lids.qsize(), iq._used_lids.qsize()])
+            rec['after_renew'] = dict(qsize=data.qsize(), tokens=_tokens(iq))
         else:
             rec['leftover'] = _drain(data)
     print('RESULT ' + json.dumps(dict(rounds=rounds)), flush=True)
+
+
+def _tokens(iq):
+    """sizes of the three private token queues, or None if they cannot be found"""
+    try:
+        return [iq._spare_lids.qsize(), iq._applied_lids.qsize(), iq._used_lids.qsize()]
+    except AttributeError:
+        return None
 
 
 def _drain(data):
